@@ -13,6 +13,7 @@ mod nchecks;
 mod report;
 mod sut;
 mod tchecks;
+mod xchecks;
 
 use ctx::*;
 use dom::*;
